@@ -74,6 +74,11 @@ func (s *Swarm[T]) Tell(ctx context.Context, dst Addr[T], v p2p.IOVec) error {
 	if p2p.VecSize(v) > s.MTU() {
 		return p2p.ErrMTUExceeded
 	}
+	// Tell waits for a handshake; it must stop waiting when the swarm is closed,
+	// whatever context the caller passed.
+	ctx, cf := context.WithCancel(ctx)
+	defer cf()
+	defer context.AfterFunc(s.ctx, cf)()
 	c, err := s.getFullAddr(ctx, dst)
 	if err != nil {
 		return err
